@@ -85,6 +85,7 @@ def configs(tier):
         dict(name="fail_tensor", sizes=[5, 5, 3], workers=2, fail_tensor=0),
         dict(name="fail_callback", sizes=[5, 5, 3], workers=2, fail_cb=1),
         dict(name="sharded_parallel_inner", sizes=[3, 3, 3, 3], workers=6, shard=6),
+        dict(name="two_regular_one_oversized", sizes=[5, 5, 9], workers=3),
     ]
     if tier == "thorough":
         cs += [
@@ -312,7 +313,7 @@ def plan(tier):
         small = nthreads <= 2 and ntens <= 3 and not cfg.get("shard")
         if tier == "quick":
             out.append((cfg, "delay", 2))
-            if small or (nthreads <= 3 and ntens <= 3 and not cfg.get("shard")):
+            if small or cfg["name"] == "oversized2":
                 out.append((cfg, "preempt", 1))
         else:
             out.append((cfg, "delay", 3 if nthreads <= 3 else 2))
